@@ -51,6 +51,7 @@ def make_cases(rng, n, scenarios=None, tweak=None, matrix=False):
     cases = []
     if matrix:
         cases += condgen.matrix_cases(g)
+        cases += condgen.matrix2_cases(g)
     for _ in range(n):
         c = g.scenario(rng.choice(scenarios) if scenarios else None)
         if tweak:
